@@ -313,7 +313,15 @@ def gen_steps(r, cols: Dict[str, str], tables: Dict[str, Dict[str, str]], max_st
                 expr = f"({r.randrange(1, 4)}).{fn}()"  # constant argument: the Pandas executor parks it in a scratch column
             else:
                 expr = f"{r.choice([c for c in nums])}.{fn}()"
-            steps.append({"t": "extend", "ops": {new: expr}, "partition_by": part})
+            wops = {new: expr}
+            if r.random() < 0.2:
+                # several constant-argument aggregations in one windowed step (each constant is parked in its own scratch column)
+                c1, c2 = r.sample([1, 2, 3, 5, 7], 2)
+                new2 = _fresh({**cols, new: "nn"}, "w")
+                wops = {new: f"({c1}).sum()", new2: f"({c2}).{r.choice(['sum', 'max'])}()"}
+                cols[new2] = "float"
+                fn = "sum"
+            steps.append({"t": "extend", "ops": wops, "partition_by": part})
             cols[new] = "nn" if fn in ("size", "count", "ngroup") else "float"
         elif kind == "owextend" and nums and (keys or groups):
             new = _fresh(cols, "o")
@@ -362,6 +370,9 @@ def gen_steps(r, cols: Dict[str, str], tables: Dict[str, Dict[str, str]], max_st
                 if fn == "size":
                     ops[new] = "_size()"
                     newcols[new] = "nn"
+                elif fn == "sum" and r.random() < 0.25:
+                    ops[new] = f"({r.choice([1, 2, 5])}).sum()"
+                    newcols[new] = "float"
                 else:
                     v = r.choice(nums)
                     ops[new] = f"{v}.{fn}()"
